@@ -25,6 +25,8 @@ def gen_obs(rng, mcfg, four_col=None):
     n = len(wn)
     # bin edges on native indices (in index space, fractional), interior only
     nb = rng.randint(2, max(2, min(7, (n - 3) // 3)))
+    # (an observation of a single bin is outside the documented domain: the
+    # grid clipping needs two wavelengths)
     lo_i, hi_i = 1.2, n - 2.2
     span = hi_i - lo_i
     width = span / nb
